@@ -72,6 +72,26 @@ def other_angle_units(lon, lat, k):
     return lon, lat
 
 
+def sky_frame(k):
+    """ICRS, or (for some table positions) a frame with a non-default attribute: FK5 at equinox J1975"""
+    from astropy.coordinates import FK5
+    return FK5(equinox="J1975") if k % 2 == 1 else "icrs"
+
+
+def sky_frames_of(cube):
+    """reprs of the celestial frames the cube's extra coordinates declare (through their WCS's object classes)"""
+    w = cube.extra_coords.wcs
+    if w is None:
+        return []
+    ll = w.low_level_wcs if hasattr(w, "low_level_wcs") else w
+    out = []
+    for key, (cls, args, kwargs, *rest) in ll.world_axis_object_classes.items():
+        fr = kwargs.get("frame") if isinstance(kwargs, dict) else None
+        if fr is not None:
+            out.append(repr(fr))
+    return sorted(out)
+
+
 def sky_types(k):
     """custom physical types for every second SkyCoord table (the others keep the frame's defaults)"""
     return {"physical_types": (f"custom:pos.slit.lon{k}", f"custom:pos.slit.lat{k}")} if k % 2 == 1 else {}
@@ -105,7 +125,7 @@ def add_ecs(cube, ecs, shape, voff=0.0, ishift=None):
             # (Time tables in the usual scales, by table position: instants matter, not clock readings)
             cube.extra_coords.add(nm[0], axes[0], Time(T0.isot, scale=["utc", "tai", "tt"][k % 3]) + v * u.min)
         elif kind == "sky1":
-            cube.extra_coords.add(tuple(nm), axes[0], SkyCoord(*other_angle_units(v * u.deg / 10, (v / 2 - 5) * u.deg / 10, k), frame="icrs"), mesh=False,
+            cube.extra_coords.add(tuple(nm), axes[0], SkyCoord(*other_angle_units(v * u.deg / 10, (v / 2 - 5) * u.deg / 10, k), frame=sky_frame(k)), mesh=False,
                                   **sky_types(k))
         elif kind == "quantity2":
             n1 = shape[axes[1]]
@@ -122,12 +142,12 @@ def add_ecs(cube, ecs, shape, voff=0.0, ishift=None):
         elif kind == "sky2d":
             n1 = shape[axes[1]]
             ii, jj = np.meshgrid(np.arange(n, dtype=float), np.arange(n1, dtype=float), indexing="ij")
-            cube.extra_coords.add(tuple(nm), tuple(axes), SkyCoord(*other_angle_units((ii * 7 + jj + k) * u.deg / 10, (ii - 2 * jj) * u.deg / 10, k), frame="icrs"), mesh=False,
+            cube.extra_coords.add(tuple(nm), tuple(axes), SkyCoord(*other_angle_units((ii * 7 + jj + k) * u.deg / 10, (ii - 2 * jj) * u.deg / 10, k), frame=sky_frame(k)), mesh=False,
                                   **sky_types(k))
         elif kind == "sky2mesh":
             lon = (np.arange(n, dtype=float) * 3 + k) * u.deg / 10
             lat = (np.arange(n, dtype=float) ** 2 - 4) * u.deg / 10
-            cube.extra_coords.add(tuple(nm), tuple(axes), SkyCoord(*other_angle_units(lon, lat, k), frame="icrs"), mesh=True, **sky_types(k))
+            cube.extra_coords.add(tuple(nm), tuple(axes), SkyCoord(*other_angle_units(lon, lat, k), frame=sky_frame(k)), mesh=True, **sky_types(k))
     return cube
 
 
